@@ -131,9 +131,9 @@ struct RunResult {
 }
 
 /// One simulated run: boot, then operations from the generator until it stops.
-fn one_run(prop: Prop, base_seed: u64, index: u64, known: &[String], roots: &[model::Model], stats: &mut Stats) -> (Trace, Option<Violation>) {
+fn one_run(prop: Prop, base_seed: u64, index: u64, long: bool, known: &[String], roots: &[model::Model], stats: &mut Stats) -> (Trace, Option<Violation>) {
     let seed = gen::run_seed(base_seed, prop, 0, index);
-    let mut g = gen::Gen::new(prop, seed);
+    let mut g = gen::Gen::new(prop, seed, long);
     let boot = gen::boot_for(base_seed, index, &mut g.rng, roots);
     let mut trace = Trace { boot: boot.clone(), ops: vec![] };
     stats.runs += 1;
@@ -177,7 +177,7 @@ fn one_run(prop: Prop, base_seed: u64, index: u64, known: &[String], roots: &[mo
     }
 }
 
-fn run_batch(prop: Prop, base_seed: u64, first: u64, runs: u64, threads: usize, known: &[String], budget_s: f64, want_samples: bool) -> RunResult {
+fn run_batch(prop: Prop, base_seed: u64, first: u64, runs: u64, threads: usize, known: &[String], budget_s: f64, want_samples: bool, long: bool) -> RunResult {
     let roots = gen::roots();
     let next = AtomicU64::new(first);
     let end = first + runs;
@@ -208,7 +208,7 @@ fn run_batch(prop: Prop, base_seed: u64, first: u64, runs: u64, threads: usize, 
                         break;
                     }
                     local.digest = 0xcbf2_9ce4_8422_2325;
-                    let (trace, v) = one_run(prop, base_seed, i, known, &roots, &mut local);
+                    let (trace, v) = one_run(prop, base_seed, i, long, known, &roots, &mut local);
                     let d = local.digest;
                     combined.fetch_xor(rng::mix(&[i, d]), Ordering::Relaxed);
                     if i < first + 256 {
@@ -269,14 +269,15 @@ fn cmd_run(a: &Args) -> i32 {
     let replay_dir = a.get("replay-dir").unwrap_or("/verif/replays").to_string();
     let recheck = a.num("recheck", 0);
     let first = a.num("first", 0);
-    let res = run_batch(prop, seed, first, runs, threads, &known, budget_s, true);
+    let long = a.get("tier") == Some("thorough");
+    let res = run_batch(prop, seed, first, runs, threads, &known, budget_s, true, long);
 
     // determinism re-check: the first runs again, single-threaded
     let mut recheck_ok = true;
     let mut rechecked = 0u64;
     if recheck > 0 && res.found.is_empty() {
         let n = recheck.min(runs).min(256);
-        let again = run_batch(prop, seed, first, n, 1, &known, budget_s, false);
+        let again = run_batch(prop, seed, first, n, 1, &known, budget_s, false, long);
         rechecked = n;
         let a1: Vec<(u64, u64)> = res.first_digests.iter().copied().filter(|x| x.0 < first + n).collect();
         recheck_ok = a1 == again.first_digests;
@@ -407,7 +408,7 @@ fn cmd_replay(a: &Args) -> i32 {
 
 fn cmd_digest(a: &Args) -> i32 {
     let prop = Prop::parse(a.get("prop").unwrap_or("")).expect("--prop");
-    let res = run_batch(prop, a.num("seed", 1), 0, a.num("runs", 1024), a.num("threads", 16) as usize, &load_known(a.get("known")), 3600.0, false);
+    let res = run_batch(prop, a.num("seed", 1), 0, a.num("runs", 1024), a.num("threads", 16) as usize, &load_known(a.get("known")), 3600.0, false, a.get("tier") == Some("thorough"));
     println!("digest {} {:016x} runs={} steps={} violations={}", prop.name(), res.combined_digest, res.runs_done, res.stats.steps, res.found.len());
     0
 }
